@@ -172,3 +172,15 @@ prop("C04", run="^TestC04", level="exploration",
      text="Structure-aware mutational fuzzing driven by rapid, one isolated execution per case, over all decoding entry points; finds panics/faults/hangs, cannot prove their absence.",
      note="Trusted: worker isolation and death classification (stderr signature); reference encoders supplying valid encodings and field annotations.",
      technique="property-based structure-aware mutation fuzzing (rapid) with subprocess isolation; 'returns value or error' oracle", design="DESIGN.md 4 C04, 2.3, 3.8")
+
+prop("C09", run="^TestC09", level="exploration",
+     quick=(8, 300, 900), thorough=(16, 12000, 7200),
+     rule="histories over {send managed, send explicit k, deliver final / non-final page / unknown id, drain-and-refill} driven through a build-tagged shim over the library's in-flight handler and compared step by step with a reference model of the unanswered set: "
+          "ALL histories of length 4 (thorough 6) over a 12-action alphabet for N=1,2,3; rapid-generated histories of 1..60 (10%: 200..2000) actions for N in {1,2,3,10,100,1000,32767}; concurrent rounds of 2..8 senders x 1..30 sends (0/30/100% caller-chosen ids from a small colliding set) + a responder, "
+          "with rapid-generated schedules (yield / sleep / bounded rendez-vous) at the hook points between the duplicate check and the registration and after the response lookup; per-id counters of accepted-unanswered requests, conservation after drain. "
+          "Non-trivial = history contains a refusal, an id reuse or a final response followed by further actions / any concurrent round; distinct by (N, history) or (round parameters, schedule)",
+     assumptions=["mixing managed and caller-chosen ids on one connection is 'not recommended' by the doc comment but is inside the property's quantifier",
+                  "acceptance of a send is only REQUIRED in the all-answered state (N sends must succeed); refusals while fewer than N are unanswered are allowed"],
+     text="Model-based stateful exploration (exhaustive to a depth bound for small N, randomised beyond) plus scheduled concurrent stress.",
+     note="Trusted: the reference model; the shim (client/verif_hooks.go) calls the same unexported functions Send and the incoming loop call. Concurrent clause: interleavings are sampled, not enumerated.",
+     technique="stateful model-based property testing (rapid state machines + exhaustive history enumeration) with hook-point schedule generation", design="DESIGN.md 4 C09, 3.9")
